@@ -1073,8 +1073,13 @@ def r11(ctx, cfg):
             a = peel(a[2][0])
         if not (a[0] == "call" and a[1].endswith("Uint128::mul_floor") and len(a[2]) == 2 and peel(a[2][0])[0] == "call" and peel(peel(a[2][0])[2][0]) == ("const", "int", 1)):
             return False
-        st = peel(a[2][1])
-        return st[0] == "field" and st[2] == "stake" and entry_pred(st[1])
+        # (`entry.unwrap_or_default().stake`, or the two cases spelled out: the entry's stake | the stake of a default entry)
+        sts = [peel(x) for x in alts(peel(a[2][1]))]
+        if not all(st[0] == "field" and st[2] == "stake" for st in sts):
+            return False
+        dflt = [st for st in sts if peel(st[1])[0] == "call" and peel(st[1])[1].endswith("Default::default") and not peel(st[1])[2]]
+        rest = [st for st in sts if st not in dflt]
+        return bool(rest) and all(entry_pred(st[1]) for st in rest)
 
     def coin_parts(o):
         c = peel(o)
